@@ -3,6 +3,7 @@ CONSTANTS
   Runs = {1}
   Params <- TraceParams
   OrderKinds = {"order", "balance", "trade"}
+VIEW TView
 INVARIANT Done
 PROPERTIES TProps
 POSTCONDITION Post
